@@ -111,3 +111,186 @@ package shwap
 //@   let back, e3 = RowIDFromBinary(bs)
 //@   assert e3 == nil
 //@   assert back.EdsID.height == height && back.RowIndex == rowIdx
+
+// ---------------------------------------------------------------------------------------------
+// SampleID and sample coordinates
+
+//@ func SampleCoordsAs1DIndex
+//@   property C18
+//@   ensures err == nil ==> 0 <= idx.Row && idx.Row < edsSize && 0 <= idx.Col && idx.Col < edsSize
+//@   ensures err == nil ==> result == idx.Row*edsSize + idx.Col
+
+//@ func SampleCoordsFrom1DIndex
+//@   property C18
+//@   nopanic
+//@   requires squareSize >= 0
+//@   ensures err == nil ==> 0 <= idx && idx < squareSize*squareSize
+//@   ensures err == nil ==> 0 <= result.Row && result.Row < squareSize && 0 <= result.Col && result.Col < squareSize
+//@   ensures err == nil ==> result.Row*squareSize + result.Col == idx
+
+//@ func (SampleID).Validate
+//@   property C18
+//@   ensures err == nil <==> (sid.ShareIndex >= 0 && sid.RowID.RowIndex >= 0 && sid.RowID.EdsID.height != 0)
+
+//@ func (SampleID).Verify
+//@   property C18 C01
+//@   ensures err == nil ==> 0 <= sid.RowID.RowIndex && sid.RowID.RowIndex < edsSize
+//@   ensures err == nil ==> 0 <= sid.ShareIndex && sid.ShareIndex < edsSize && sid.RowID.EdsID.height != 0
+
+//@ func NewSampleID
+//@   property C18
+//@   ensures err == nil ==> result.RowID.EdsID.height == height && result.RowID.RowIndex == idx.Row && result.ShareIndex == idx.Col
+//@   ensures err == nil ==> 0 <= idx.Row && idx.Row < edsSize && 0 <= idx.Col && idx.Col < edsSize && height != 0
+
+//@ func (SampleID).AppendBinary
+//@   property C18
+//@   nopanic
+//@   modifies data
+//@   ensures err == nil
+//@   ensures len(result) == len(data) + 12
+//@   ensures sameArray(result, data) || isFresh(result)
+//@   ensures forall i int :: 0 <= i && i < len(data) ==> result[i] == old(data[i])
+//@   ensures u64be(result, len(data)) == sid.RowID.EdsID.height
+//@   ensures u16be(result, len(data) + 8) == mod(sid.RowID.RowIndex, 65536)
+//@   ensures u16be(result, len(data) + 10) == mod(sid.ShareIndex, 65536)
+
+//@ func (SampleID).MarshalBinary
+//@   property C18
+//@   nopanic
+//@   ensures err == nil && len(result) == SampleIDSize
+//@   ensures u64be(result, 0) == sid.RowID.EdsID.height
+//@   ensures u16be(result, 8) == mod(sid.RowID.RowIndex, 65536)
+//@   ensures u16be(result, 10) == mod(sid.ShareIndex, 65536)
+
+//@ func SampleIDFromBinary
+//@   property C18
+//@   nopanic
+//@   untrusted data
+//@   ensures err == nil <==> (len(data) == SampleIDSize && u64be(data, 0) != 0)
+//@   ensures err == nil ==> result.RowID.EdsID.height == u64be(data, 0) && result.RowID.RowIndex == u16be(data, 8) && result.ShareIndex == u16be(data, 10)
+
+//@ func (*SampleID).Equals
+//@   property C18
+//@   ensures result <==> (sid.RowID.EdsID.height == other.RowID.EdsID.height && sid.RowID.RowIndex == other.RowID.RowIndex && sid.ShareIndex == other.ShareIndex)
+
+//@ lemma C18_SampleID_roundtrip(height uint64, idx SampleCoords, edsSize int)
+//@   property C18
+//@   assume 0 < edsSize && edsSize <= MaxEDS
+//@   let id, e1 = NewSampleID(height, idx, edsSize)
+//@   assume e1 == nil
+//@   let bs, e2 = id.MarshalBinary()
+//@   assert e2 == nil
+//@   let back, e3 = SampleIDFromBinary(bs)
+//@   assert e3 == nil
+//@   assert back.RowID.EdsID.height == height && back.RowID.RowIndex == idx.Row && back.ShareIndex == idx.Col
+
+// ---------------------------------------------------------------------------------------------
+// RangeNamespaceDataID (32-bit form) and RangeNamespaceDataIDV0 (16-bit form, used by bitswap)
+
+//@ pure func u32be(b []byte, at int) int = ((b[at]*256 + b[at+1])*256 + b[at+2])*256 + b[at+3]
+
+//@ func (RangeNamespaceDataID).Validate
+//@   property C18
+//@   ensures err == nil <==> (rngid.EdsID.height != 0 && 0 <= rngid.From && rngid.From < rngid.To)
+
+//@ func (RangeNamespaceDataID).Verify
+//@   property C18 C01
+//@   ensures err == nil ==> rngid.EdsID.height != 0 && 0 <= rngid.From && rngid.From < rngid.To && rngid.To <= odsSize*odsSize
+
+//@ func NewRangeNamespaceDataID
+//@   property C18
+//@   ensures err == nil ==> result.EdsID.height == edsID.height && result.From == from && result.To == to
+//@   ensures err == nil ==> edsID.height != 0 && 0 <= from && from < to && to <= odsSize*odsSize
+
+//@ func (RangeNamespaceDataID).appendTo
+//@   property C18
+//@   nopanic
+//@   modifies data
+//@   ensures err == nil
+//@   ensures len(result) == len(data) + 16
+//@   ensures sameArray(result, data) || isFresh(result)
+//@   ensures forall i int :: 0 <= i && i < len(data) ==> result[i] == old(data[i])
+//@   ensures u64be(result, len(data)) == rngid.EdsID.height
+//@   ensures u32be(result, len(data) + 8) == mod(rngid.From, 4294967296)
+//@   ensures u32be(result, len(data) + 12) == mod(rngid.To, 4294967296)
+
+//@ func (RangeNamespaceDataID).MarshalBinary
+//@   property C18
+//@   nopanic
+//@   ensures err == nil && len(result) == RangeNamespaceDataIDSize
+//@   ensures u64be(result, 0) == rngid.EdsID.height
+//@   ensures u32be(result, 8) == mod(rngid.From, 4294967296)
+//@   ensures u32be(result, 12) == mod(rngid.To, 4294967296)
+
+//@ func RangeNamespaceDataIDFromBinary
+//@   property C18
+//@   nopanic
+//@   untrusted data
+//@   ensures err == nil <==> (len(data) == RangeNamespaceDataIDSize && u64be(data, 0) != 0 && u32be(data, 8) < u32be(data, 12))
+//@   ensures err == nil ==> result.EdsID.height == u64be(data, 0) && result.From == u32be(data, 8) && result.To == u32be(data, 12)
+
+//@ func (*RangeNamespaceDataID).Equals
+//@   property C18
+//@   ensures result <==> (rngid.EdsID.height == other.EdsID.height && rngid.From == other.From && rngid.To == other.To)
+
+//@ lemma C18_RangeID_roundtrip(edsID EdsID, from int, to int, odsSize int)
+//@   property C18
+//@   assume 0 < odsSize && odsSize <= MaxEDS / 2
+//@   let id, e1 = NewRangeNamespaceDataID(edsID, from, to, odsSize)
+//@   assume e1 == nil
+//@   let bs, e2 = id.MarshalBinary()
+//@   assert e2 == nil
+//@   let back, e3 = RangeNamespaceDataIDFromBinary(bs)
+//@   assert e3 == nil
+//@   assert back.EdsID.height == edsID.height && back.From == from && back.To == to
+
+//@ func (RangeNamespaceDataIDV0).fitsWire
+//@   property C18
+//@   ensures err == nil <==> (0 <= rngid.RangeNamespaceDataID.From && rngid.RangeNamespaceDataID.From <= 65535 && 0 <= rngid.RangeNamespaceDataID.To && rngid.RangeNamespaceDataID.To <= 65535)
+
+//@ func NewRangeNamespaceDataIDV0
+//@   property C18
+//@   ensures err == nil ==> result.RangeNamespaceDataID.EdsID.height == edsID.height && result.RangeNamespaceDataID.From == from && result.RangeNamespaceDataID.To == to
+//@   ensures err == nil ==> edsID.height != 0 && 0 <= from && from < to && to <= odsSize*odsSize && to <= 65535
+
+// The encoder refuses (instead of truncating) what the 16-bit wire fields cannot carry.
+//@ func (RangeNamespaceDataIDV0).appendTo
+//@   property C18
+//@   nopanic
+//@   modifies data
+//@   ensures err == nil <==> (0 <= rngid.RangeNamespaceDataID.From && rngid.RangeNamespaceDataID.From <= 65535 && 0 <= rngid.RangeNamespaceDataID.To && rngid.RangeNamespaceDataID.To <= 65535)
+//@   ensures err == nil ==> len(result) == len(data) + 12
+//@   ensures err == nil ==> sameArray(result, data) || isFresh(result)
+//@   ensures err == nil ==> forall i int :: 0 <= i && i < len(data) ==> result[i] == old(data[i])
+//@   ensures err == nil ==> u64be(result, len(data)) == rngid.RangeNamespaceDataID.EdsID.height
+//@   ensures err == nil ==> u16be(result, len(data) + 8) == rngid.RangeNamespaceDataID.From
+//@   ensures err == nil ==> u16be(result, len(data) + 10) == rngid.RangeNamespaceDataID.To
+
+//@ func (RangeNamespaceDataIDV0).MarshalBinary
+//@   property C18
+//@   nopanic
+//@   ensures err == nil <==> (0 <= rngid.RangeNamespaceDataID.From && rngid.RangeNamespaceDataID.From <= 65535 && 0 <= rngid.RangeNamespaceDataID.To && rngid.RangeNamespaceDataID.To <= 65535)
+//@   ensures err == nil ==> len(result) == RangeNamespaceDataIDV0Size
+//@   ensures err == nil ==> u64be(result, 0) == rngid.RangeNamespaceDataID.EdsID.height
+//@   ensures err == nil ==> u16be(result, 8) == rngid.RangeNamespaceDataID.From
+//@   ensures err == nil ==> u16be(result, 10) == rngid.RangeNamespaceDataID.To
+
+//@ func RangeNamespaceDataIDV0FromBinary
+//@   property C18
+//@   nopanic
+//@   untrusted data
+//@   ensures err == nil <==> (len(data) == RangeNamespaceDataIDV0Size && u64be(data, 0) != 0 && u16be(data, 8) < u16be(data, 10))
+//@   ensures err == nil ==> result.RangeNamespaceDataID.EdsID.height == u64be(data, 0) && result.RangeNamespaceDataID.From == u16be(data, 8) && result.RangeNamespaceDataID.To == u16be(data, 10)
+
+// "no encoder silently alters a field": every identifier the constructor accepts for a protocol-size
+// square survives the 16-bit form (the constructor and the encoder refuse what does not fit).
+//@ lemma C18_RangeIDV0_roundtrip(edsID EdsID, from int, to int, odsSize int)
+//@   property C18
+//@   assume 0 < odsSize && odsSize <= MaxEDS / 2
+//@   let id, e1 = NewRangeNamespaceDataIDV0(edsID, from, to, odsSize)
+//@   assume e1 == nil
+//@   let bs, e2 = id.MarshalBinary()
+//@   assert e2 == nil
+//@   let back, e3 = RangeNamespaceDataIDV0FromBinary(bs)
+//@   assert e3 == nil
+//@   assert back.RangeNamespaceDataID.EdsID.height == edsID.height && back.RangeNamespaceDataID.From == from && back.RangeNamespaceDataID.To == to
